@@ -50,9 +50,12 @@ def conservation(check: Check, repo: Repo) -> None:
     from ..stackinv import check_method
     from ..stackmodel import check_method as model_check
 
+    from ..objmodel import ClassModel
+
+    cm = ClassModel(repo, STACK, "C09 CONSERVATION", {"Generic": None})
     for q in ("push", "pop", "clear", "snapshot", "drop_snapshot", "restore"):
         fn = _method(repo, STACK, "Stack", q)
-        _n_m, bad_m = model_check(fn, f"{STACK}::Stack.{q}", q, 3, 1)
+        _n_m, bad_m = model_check(fn, f"{STACK}::Stack.{q}", q, 3, 1, cm)
         try:
             results = check_method(fn, f"{STACK}::Stack.{q}")
         except AnalysisError as err:
@@ -75,11 +78,14 @@ def rep_invariant(check: Check, repo: Repo, tier: str) -> None:
     """REP-INVARIANT: every Stack method preserves the representation invariant (sa/stackmodel.py)."""
     from ..stackmodel import METHODS, check_method
 
+    from ..objmodel import ClassModel
+
     depth, gap = (3, 2) if tier != "quick" else (3, 1)
+    cm = ClassModel(repo, STACK, "C09 REP-INVARIANT", {"Generic": None})
     for q in METHODS:
         fn = _method(repo, STACK, "Stack", q)
         construct = f"{STACK}::Stack.{q}"
-        n, bad = check_method(fn, construct, q, depth, gap)
+        n, bad = check_method(fn, construct, q, depth, gap, cm)
         check.count("rep_invariant_states", n)
         sig = "does not preserve the representation invariant of the delta-encoded snapshots"
         check.oblige("REP-INVARIANT", construct, f"preserves the representation invariant and agrees with a stack of full copies on all {n} abstract states" if not bad else sig, not bad, sample=q in ("drop_snapshot", "clear", "restore"),
